@@ -41,6 +41,6 @@ PLAN = dict(
     quick=_jobs("quick"), thorough=_jobs("thorough"),
     fuzz=desc_fuzz("C11", fix=dict(k=(1, 10), logm=(0, 10), logn=(1, 10))),
     required_classes=dict(all=["entry:" + e for e in ENTRIES + VEC] + ["zero_size:" + e for e in ZERO_OK + VEC] + ["offset:" + e for e in ENTRIES]
-                          + ["module:NTT120", "cfg:generic"] + ["object:module_info:FFT64", "object:module_info:NTT120", "object:vmp_pmat",
+                          + ["module:NTT120", "cfg:generic", "fresh-module,heap-fill-differential"] + ["object:module_info:FFT64", "object:module_info:NTT120", "object:vmp_pmat",
                                                                 "object:q120_ntt_bb_precomp", "object:reim_fft_precomp"]),
 )
